@@ -1,18 +1,19 @@
 """C20 — a checkpoint exists whenever a trial is resumed or warm-started from it (assembled: loop, hb, sync)."""
 import random
 
-from streams import hb, sync, loop, pbt
-from props import c05, c20pbt
+from streams import hb, sync, loop, pbt, early
+from props import c05, c20pbt, c20early
 from props.c03 import gen_ctor
 
 PID = "C20"
 LEVEL = "proof"
 HB, SYNC, LOOP = "SyneTune/Drivers/Hb.lean", "SyneTune/Drivers/Sync.lean", "SyneTune/Drivers/Loop.lean"
 PBT = "SyneTune/Drivers/Pbt.lean"
+EARLY = early.DRIVER
 DRIVER = LOOP
-COMPARE = {HB: hb.compare, SYNC: sync.compare, LOOP: loop.compare, PBT: pbt.compare}
+COMPARE = {HB: hb.compare, SYNC: sync.compare, LOOP: loop.compare, PBT: pbt.compare, EARLY: early.compare}
 LEAN_TARGETS = ["SyneTune.Props.C20Loop", "SyneTune.Props.C20Hb", "SyneTune.Props.C20Sync", "SyneTune.Props.C04K", "SyneTune.Props.C04",
-                "SyneTune.Props.C20Pbt"]
+                "SyneTune.Props.C20Pbt", "SyneTune.Props.C20Early"]
 THEOREMS = [
     "SyneTune.C20Loop.delete_only_when",
     "SyneTune.C20Loop.deleted_only_stopped_or_named",
@@ -29,17 +30,21 @@ THEOREMS = [
     "SyneTune.C20Sync.not_promoted_stable",
     "SyneTune.C20Sync.not_promoted_never_resumed",
     "SyneTune.C20Sync.resume_has_ckpt_sync",
-] + list(c20pbt.THEOREMS)   # scheduler-level model of PopulationBasedTraining (Props/C20Pbt.lean, stream pbt)
+] + list(c20pbt.THEOREMS) + list(c20early.THEOREMS)
+# (c20pbt: scheduler-level model of PopulationBasedTraining, Props/C20Pbt.lean, stream pbt; c20early: bookkeeping of the speculative
+#  early-removal callbacks, Props/C20Early.lean, stream early)
 TRUSTED = [
     "loop model (Model/Tuner.lean: stop/pause/delete/copy commands, removal callback), asynchronous Hyperband model "
     "(Model/HB.lean) and synchronous Hyperband model (Model/Sync*.lean), each tied to /repo by its correspondence stream",
     "the backend's checkpoint set: copy requires the source present, delete idempotent, stop deletes iff delete_checkpoints, "
     "pause never deletes (scripted in-memory backend recording copy / delete / resume)",
-    "(early) no model: the speculative removal callback's picks depend on estimated probabilities and a clock; the cases of kind "
-    "'early' are judged by the monitor alone, on the recorded dialogue of the real Tuner and the scripted backend's own record "
-    "of every deletion (status of the trial and presence of the checkpoint at that moment); the callback's clock "
+    "(early) the BOOKKEEPING of the speculative removal callbacks is modelled (Model/EarlyRemoval.lean, theorems Props/C20Early.lean, "
+    "model lines through Drivers/Early.lean); which paused trials are picked depends on estimated probabilities, a clock or a random "
+    "draw and is an oracle input whose admissibility (distinct members of the filtered paused list, the right number) is checked. "
+    "The monitor of the cases of kind 'early' keeps judging the recorded dialogue of the real Tuner and the scripted backend's own "
+    "record of every deletion (status of the trial and presence of the checkpoint at that moment); the callback's clock "
     "(time.perf_counter in its module) is replaced by a deterministic counter so that runs are reproducible",
-] + ["(pbt) " + x for x in c20pbt.TRUSTED]
+] + ["(pbt) " + x for x in c20pbt.TRUSTED] + ["(early) " + x for x in c20early.TRUSTED]
 ASSUMPTIONS = [
     "speculative early checkpoint removal (HyperbandRemoveCheckpointsCallback and its baseline variants) is exercised in both "
     "settings. OFF (cases loop / hb / sync; the scheduler has no early_checkpoint_removal_kwargs): proved on the models, and on the "
@@ -51,7 +56,7 @@ ASSUMPTIONS = [
     "checkpoints is: after on_loop_end, (#running trials + #paused trials whose checkpoint is kept) <= max_num_checkpoints, or "
     "no paused trial keeps a checkpoint (checkpoints of completed / failed trials are outside the callback's count)",
     "DEHB and PBT have no scheduler model: their resume / warm-start behaviour is decided on the real Tuner traces only",
-] + ["(pbt) " + x for x in c20pbt.ASSUMPTIONS]
+] + ["(pbt) " + x for x in c20pbt.ASSUMPTIONS] + ["(early) " + x for x in c20early.ASSUMPTIONS]
 RULE = ("cases: (loop) real Tuner runs with pause-and-resume schedulers (promotion Hyperband, PASHA, synchronous Hyperband, DEHB, "
         "PBT) on the scripted backend with delete_checkpoints on/off and the removal callback, every order of results inside a "
         "poll; (hb) the real promotion-type HyperbandScheduler: a trial that received STOP is never resumed; (sync) the real "
@@ -60,9 +65,10 @@ RULE = ("cases: (loop) real Tuner runs with pause-and-resume schedulers (promoti
         "early_checkpoint_removal_kwargs (max_num_checkpoints 2..6, estimator-based callback with varied prior_beta_mean / "
         "prior_beta_size / min_data_at_rung / approx_steps and the baselines 'random' / 'by_level' / None, max_wallclock_time from "
         "the kwargs or the criterion) on the scripted backend with delete_checkpoints=True, 1..5 workers, 1..3 brackets, results of "
-        "several trials inside a poll in a random interleaving, failures and external stops; monitor only (no model lines). "
+        "several trials inside a poll in a random interleaving, failures and external stops; monitor on the dialogue plus model lines "
+        "for the callback's books. "
         "distinct by sha256 of the spec; non-trivial iff at least one resume or warm start happened (early: at least one "
-        "speculative removal and at least one promotion after it); (pbt) " + c20pbt.RULE)
+        "speculative removal and at least one promotion after it); (pbt) " + c20pbt.RULE + "; (early, model lines) " + c20early.RULE)
 
 
 def gen_cases(rng, tier):
@@ -152,6 +158,9 @@ def gen_cases(rng, tier):
     # the real PopulationBasedTraining scheduler against its model (appended last: the cases above stay the same for a seed)
     for _ in range(40 if tier == "quick" else 500):
         yield dict(pbt.gen_case(rng, tier), kind="pbt")
+    # the early-removal callback classes driven directly (also operation orders the Tuner never produces)
+    for _ in range(40 if tier == "quick" else 600):
+        yield early.gen_direct(rng, tier)
 
 
 def corpus():
@@ -172,8 +181,13 @@ def run_impl(spec):
             return {"lines": lines, "driver": LOOP, "monitor": mon, "meta": {"hist": hist, "nontrivial": nt}}
         finally:
             loop.cleanup(t)
-    if kind == "early":
-        return run_early(spec)
+    if kind in ("early", "early-direct"):
+        # the recorded run of `run_early` (monitor as before) plus model lines for the callback's bookkeeping (streams/early.py);
+        # early-direct: the callback classes on stub scheduler / backend
+        r = early.run_impl(spec)
+        r["driver"] = EARLY
+        r["meta"]["hist"]["kind:" + kind] = 1
+        return r
     if kind == "pbt":
         r = pbt.run_impl(spec)
         r["driver"] = PBT
@@ -214,6 +228,12 @@ def nontrivial(trace):
 def extra(ctx):
     """the Lean witnesses of the PBT counterexample theorems replayed on the real scheduler"""
     c20pbt.extra(ctx)
+
+
+def post_case(trace, model_outputs):
+    if trace.get("driver") == EARLY:
+        return early.post_case(trace, model_outputs) or []
+    return []
 
 
 # ---------------------------------------------------------------------------------
